@@ -290,6 +290,7 @@ def execute_clientconn(scen, sim, viol, probes, facts):
 
     rep = scen.get("repeat_pattern", 0)
     last_val = [None]
+    reuse = [None]
 
     def one():
         counter[0] += 1
@@ -302,8 +303,15 @@ def execute_clientconn(scen, sim, viol, probes, facts):
         last_val[0] = val
         if val == "g":
             msg = M.GetProperties(version="1.7", device="D")
+        elif reuse[0] is not None and (counter[0] * 7 + rep) % 5 == 0:
+            # the application keeps one message object and updates it in place for the next command (send_message has taken
+            # what it was given by the time it returns): each send carries the content the object had when it was sent
+            msg = reuse[0]
+            msg.children[0].value = val
+            probes["message_object_reused"] = probes.get("message_object_reused", 0) + 1
         else:
             msg = M.NewTextVector(device="D", name="TXT", children=(M.one_parts.OneText(name="T0", value=val),))
+            reuse[0] = msg
         sent.append(view_of_message(msg))
         h.send_message(msg)
 
